@@ -125,6 +125,63 @@ partial def pBlocks : Nat → List String → Option (List PBlock × List String
     | _ => none
   | _, _ => none
 
+open Scfg.Py in
+mutual
+partial def prE : E → List String
+  | .var x => ["v", x]
+  | .cst c => ["c", c.repr, if c.truthy then "1" else "0"]
+  | .leaf id reads => ["l", toString id, toString reads.length] ++ reads
+  | .boolop a args => ["bo", if a then "1" else "0", toString args.length] ++ prEs args
+  | .binop id l r => ["bi", toString id] ++ prE l ++ prE r
+  | .call id f args => ["ca", toString id] ++ prE f ++ [toString args.length] ++ prEs args
+  | .compare id l rest => ["cm", toString id] ++ prE l ++ [toString rest.length] ++ prEs rest
+  | .notE e => ["no"] ++ prE e
+  | .inT x vals => ["in", x, toString vals.length] ++ vals.map toString
+  | .neSent x => ["ns", x]
+  | .iterOf id e => ["it", toString id] ++ prE e
+  | .nextOf id it => ["nx", toString id, it]
+partial def prEs : List E → List String
+  | [] => []
+  | e :: es => prE e ++ prEs es
+partial def prS : S → List String
+  | .assign x e => ["as", x] ++ prE e
+  | .store id reads e => ["st", toString id, toString reads.length] ++ reads ++ prE e
+  | .expr e => ["ex"] ++ prE e
+  | .ret e => ["re"] ++ prE e
+  | .pass => ["pa"]
+  | .brk => ["br"]
+  | .cont => ["co"]
+  | .ifS t b o => ["if"] ++ prE t ++ prL b ++ prL o
+  | .whileS t b o => ["wh"] ++ prE t ++ prL b ++ prL o
+  | .forS id x e b o => ["fo", toString id, x] ++ prE e ++ prL b ++ prL o
+  | .unsupported w => ["un", w]
+partial def prL : List S → List String
+  | ss => [toString ss.length] ++ prSs ss
+partial def prSs : List S → List String
+  | [] => []
+  | s :: ss => prS s ++ prSs ss
+end
+
+open Scfg.Py in
+def prBlocks (bs : List Model.WBlock) : List String :=
+  [toString bs.length] ++ (bs.foldl (fun acc b =>
+    let instrs := b.instrs
+    let (body, test) : List Model.Instr × Option E :=
+      if b.jts.length == 2 then
+        match instrs.getLast? with
+        | some (.e t) => (instrs.dropLast, some t)
+        | some (.s (.expr t)) => (instrs.dropLast, some t)
+        | _ => (instrs, none)
+      else (instrs, none)
+    let stmts : List S := body.map fun i => match i with
+      | .s st => st
+      | .e x => .expr x
+    acc ++ [toString b.name] ++ prL stmts ++
+      (match test with
+       | some t => ["1"] ++ prE t
+       | none => ["0"]) ++
+      [toString b.jts.length] ++ b.jts.map toString) [])
+
 def pParams : List String → Option (List String × List String)
   | n :: r => do
     let k ← n.toNat?
@@ -310,6 +367,20 @@ def step (st : DState) (line : String) : DState × String :=
     | some (ps, r1) => match pL r1 with
       | some (body, []) =>
         ({ st with pa := Py.compileFn body { forPreset := fp == "1", feHoist := fh == "1" }, pparams := ps }, "ok")
+      | _ => (st, "parse-error")
+    | none => (st, "parse-error")
+  | "FE" :: r => match pParams r with
+    | some (_, r1) => match pL r1 with
+      | some (body, []) => match Model.ast2cfg body with
+        | .ok bs => (st, "ok " ++ " ".intercalate (prBlocks bs))
+        | .error e => (st, "abort " ++ e)
+      | _ => (st, "parse-error")
+    | none => (st, "parse-error")
+  | "RT" :: r => match pParams r with
+    | some (_, r1) => match pL r1 with
+      | some (body, []) => match Model.roundtrip body with
+        | .ok out => (st, "ok " ++ " ".intercalate (prL out))
+        | .error e => (st, "abort " ++ e)
       | _ => (st, "parse-error")
     | none => (st, "parse-error")
   | ["PYSIM"] =>
